@@ -8,14 +8,18 @@ PAYLOAD_OPS = ('roStoryAppend', 'roStoryInsert', 'roStoryReplace', 'EAStoryInser
                'roStoryInsert-last', 'roStoryInsert-dup', 'EAStoryInsert-dup',
                'roItemInsert', 'roItemReplace', 'EAItemInsert', 'EAItemReplace', 'roMetadataReplace',
                'roDelete', 'roStorySend', 'roReplace', 'roReplace-skeleton', 'roStoryReplace-skeleton',
-               'roItemInsert-blank-id', 'EAItemReplace-blank-id', 'roStoryAppend-blank-id')
+               'roItemInsert-blank-id', 'EAItemReplace-blank-id', 'roStoryAppend-blank-id', 'EAStoryInsert-no-target',
+               'EAStoryMove-no-target', 'EAStorySwap')
 
 
 def fresh_ro(ids, item_ids, c0):
     stories = []
     for j, s in enumerate(ids):
-        stories.append(B.story(s, slug='ss', timing=B.timing_block(dur='10'),
-                               body=[B.item(i, slug='old') for i in item_ids] + [T('p', c0)]))
+        st_ = B.story(s, slug='ss', timing=B.timing_block(dur='10'),
+                      body=[B.item(i, slug='old') for i in item_ids] + [T('p', c0)])
+        st_.insert(2, T('storyNum', 'num-%d' % j))      # optional details a skeleton replacement does not carry
+        st_.set('revision', 'r%d' % j)
+        stories.append(st_)
     return B.running_order(stories, lead=3, trail=1)
 
 
@@ -62,6 +66,12 @@ def make_msg(op, ids, item_ids, n0, c0, c1, n1=None):
         return M.item_insert(ids[0], item_ids[0], [rich_item(None, c0, c1), rich_item(n0, c0, c1)])
     if op == 'EAItemReplace-blank-id':
         return M.ea_item_replace(ids[0], item_ids[0], [rich_item(n0, c0, c1), rich_item(None, c0, c1)])
+    if op == 'EAStoryInsert-no-target':
+        return M.ea_story_insert(M.ABSENT, [rich_story(n0, c0, c1)])        # no <element_target> at all
+    if op == 'EAStoryMove-no-target':
+        return M.ea_story_move(M.ABSENT, [ids[0]])
+    if op == 'EAStorySwap':
+        return M.ea_story_swap(ids[0], ids[1])
     if op == 'roStoryAppend-blank-id':
         return M.story_append([rich_story(None, c0, c1), rich_story(n0, c0, c1)])
     raise ValueError(op)
@@ -76,7 +86,8 @@ def later_edit(op, edit, ids, item_ids, n0, c1, second=False):
     """A later message that touches what the first one carried."""
     carried_story = n0 if op in ('roStoryAppend', 'roStoryInsert', 'roStoryReplace', 'EAStoryInsert', 'EAStoryInsert-end',
                                  'roStoryInsert-last', 'EAStoryReplace', 'roReplace', 'roStoryInsert-dup',
-                                 'EAStoryInsert-dup', 'roReplace-skeleton', 'roStoryAppend-blank-id') else ids[0]
+                                 'EAStoryInsert-dup', 'roReplace-skeleton', 'roStoryAppend-blank-id',
+                                 'EAStoryInsert-no-target') else ids[0]
     inner = 'ci1' if second else 'ci0'
     if op in ('roItemInsert', 'roItemReplace', 'EAItemInsert', 'EAItemReplace', 'roItemInsert-blank-id',
               'EAItemReplace-blank-id'):
@@ -125,11 +136,26 @@ def sharing_cell(P, A):
     msg = make_msg(op, ids, item_ids, n0, c0, c1, n1)
     msg_snap = B.snap(msg.xml)
     sig = None
+    # looking at a message (its documented accessors) is not a change of its content either
+    def _look():
+        for name in ('story', 'stories', 'item', 'items', 'source_story', 'target_story', 'source_stories', 'source_items',
+                     'target_item', 'message_id', 'ro_id', 'base_tag'):
+            try:
+                v = getattr(msg, name, None)
+                if isinstance(v, (list, tuple)):
+                    [getattr(e, 'id', None) for e in v]
+                elif v is not None:
+                    getattr(v, 'id', None)
+            except Exception:
+                pass
+    _look()
+    if B.snap(msg.xml) != msg_snap:
+        sig = 'message-modified-by-reading-its-accessors'
     o = B.merge(ro1, msg)
     if o.raised:
         B.note(sig='first-merge-raised-' + type(o.exc).__name__, observed=B.conc(o.exc))
         return False
-    if B.snap(msg.xml) != msg_snap:
+    if sig is None and B.snap(msg.xml) != msg_snap:
         sig = 'message-modified-by-its-own-merge'
     if sig is None and shares(msg.xml, ro1.xml):
         sig = 'message-and-running-order-share-elements'
@@ -162,6 +188,20 @@ def sharing_cell(P, A):
                 sig = 'edit-of-one-running-order-changed-the-other'
             elif B.snap(msg.xml) != msg_snap:
                 sig = 'message-modified-by-later-merge'
+    if sig is None and op != 'roDelete':
+        # the same object merged again and again into one running order behaves like a fresh copy each time
+        ro3, ro3f = fresh_ro(ids, item_ids, c0), fresh_ro(ids, item_ids, c0)
+        for rnd in range(3):
+            a = B.merge(ro3, msg)
+            b = B.merge(ro3f, make_msg(op, ids, item_ids, n0, c0, c1, n1))
+            if a.raised != b.raised or a.cats() != b.cats():
+                sig = 'repeated-merge-%d-outcome-differs-from-fresh-copy' % (rnd + 1)
+                break
+            if B.snap(ro3.xml) != B.snap(ro3f.xml):
+                sig = 'repeated-merge-%d-result-differs-from-fresh-copy' % (rnd + 1)
+                break
+        if sig is None and B.snap(msg.xml) != msg_snap:
+            sig = 'message-modified-by-repeated-merges'
     B.hit()
     if B.Ctx.replay:
         B.note(sig=sig, observed=sig, expected='message and running orders independent')
